@@ -1,10 +1,12 @@
 import Driver.Sess
 import Driver.Field
+import Driver.Query
 import Driver.Widcode
 open Driver
 
 def sessions : List (String × Sess) := [
   ("field", FieldS.sess),
+  ("query", QueryS.sess),
   ("widcode", WidcodeS.sess)
 ]
 
